@@ -185,20 +185,31 @@ Fixpoint lit_matched (lbase : Z) (n : nat) (match_byte offset symbol : Z) : prog
         lit_matched lbase k match_byte offset symbol)
   end.
 
+(* LiteralSubDecoder::decode without the window: [mb] = None in a literal state, Some match_byte
+   otherwise; returns the 9-bit symbol (0x100 | byte) *)
+Definition lit_prog (lbase : Z) (mb : option Z) : prog Z :=
+  match mb with
+  | None => bittree lbase 8 1
+  | Some m => lit_matched lbase 8 m 256 1
+  end.
+
+(* get_sub_coder_index(prev_byte, pos) and the sub_decoders[i] index check; result = table base *)
+Definition lit_base (c : coder) (prev pos : Z) : outcome Z :=
+  if 8 <? c_lc c then Panic 30 else           (* 8 - lc underflows *)
+  let low := Z.shiftr prev (8 - c_lc c) in
+  let high := wrap32 (Z.shiftl (Z.land (wrap32 pos) (wrap32 (Z.shiftl 1 (c_lp c) - 1))) (c_lc c)) in
+  let i := wrap32 (low + high) in
+  do _ <- key1 0 (Z.shiftl 1 (c_lc c + c_lp c)) i;   (* sub_decoders[i] *)
+  Ok (K_LITERAL + i * 768).
+
 (* LiteralDecoder::decode + LiteralSubDecoder::decode *)
 Definition decode_literal (c : coder) (w : lzwin) : prog (coder * lzwin) :=
   bind prev <- lift (lzwin_get_byte w 0);
-  if 8 <? c_lc c then Fail (Panic 30) else           (* 8 - lc underflows *)
-  let low := Z.shiftr prev (8 - c_lc c) in
-  let high := wrap32 (Z.shiftl (Z.land (wrap32 (w_pos w)) (wrap32 (Z.shiftl 1 (c_lp c) - 1))) (c_lc c)) in
-  let i := wrap32 (low + high) in
-  bind _ <- lift (key1 0 (Z.shiftl 1 (c_lc c + c_lp c)) i);   (* sub_decoders[i] *)
-  let lbase := K_LITERAL + i * 768 in
-  bind symbol <-
-    (if state_is_literal (c_state c) then bittree lbase 8 1
-     else
-       bind mb <- lift (lzwin_get_byte w (rep_as_usize (c_rep0 c)));
-       lit_matched lbase 8 mb 256 1);
+  bind lbase <- lift (lit_base c prev (w_pos w));
+  bind mb <-
+    (if state_is_literal (c_state c) then Ret None
+     else bind m <- lift (lzwin_get_byte w (rep_as_usize (c_rep0 c))); Ret (Some m));
+  bind symbol <- lit_prog lbase mb;
   bind w1 <- lift (lzwin_put_byte w (wrap8 symbol));
   Ret (set_state c (state_update_literal (c_state c)), w1).
 
